@@ -215,6 +215,12 @@ class Normaliser(object):
             return p.canon() if not (p.is_monomial() and len(p.atoms()) == 1 and list(p.t.values()) == [1]) else list(p.atoms())[0]
         if isinstance(e, ast.Call):
             fn = ast.unparse(e.func)
+            if isinstance(e.func, ast.Attribute):
+                root = e.func.value
+                while isinstance(root, ast.Attribute):
+                    root = root.value
+                if not isinstance(root, ast.Name) or root.id in self.env:
+                    fn = "(%s).%s" % (self.arg(e.func.value), e.func.attr)      # method on a computed receiver: normalise the receiver too
             fn = {"np.abs": "abs", "numpy.abs": "abs", "np.absolute": "abs"}.get(fn, fn)
             args = [self.arg(a) for a in e.args]
             kws = sorted("%s=%s" % (k.arg, self.arg(k.value)) for k in e.keywords)
@@ -226,6 +232,11 @@ class Normaliser(object):
         return " ".join(ast.unparse(e).split())
 
     def arg(self, a):
+        if isinstance(a, (ast.Tuple, ast.List)):
+            inner = ", ".join(self.arg(x) for x in a.elts)
+            return ("(%s)" if isinstance(a, ast.Tuple) else "[%s]") % inner
+        if isinstance(a, ast.Starred):
+            return "*" + self.arg(a.value)
         if isinstance(a, (ast.BinOp, ast.UnaryOp, ast.Name, ast.Constant)):
             p = self.poly(a)
             if p.is_monomial():
